@@ -107,8 +107,9 @@ fn module(shared: Arc<Shared>) -> RpcModule<Arc<Shared>> {
 			}
 		}
 		let mut rx = ctx.gate(id);
-		*ctx.started.lock().unwrap().entry(id).or_insert(0) += 1;
+		// total first: the harness waits on `started` and then reads `total`
 		ctx.total.fetch_add(1, SeqCst);
+		*ctx.started.lock().unwrap().entry(id).or_insert(0) += 1;
 		let _ = rx.wait_for(|v| *v).await;
 		*ctx.finished.lock().unwrap().entry(id).or_insert(0) += 1;
 		id
